@@ -5,7 +5,9 @@
                         EnumType, ArrayType, DictType, ObjectType.validate
      core/arguments.py  ArgumentOptions.create (optional at top level, required flag),
                         Argument.validate
-     core/objects.py    ConfigInformation.set / get / validate / submit
+     core/objects.py    ConfigInformation.set / get / validate / submit,
+                        TypeConfig.__init__ (defaults go through set)
+     core/types.py      ObjectType.addArgument (a default is validated at declaration)
 
    Definitions only; proofs are in proofs/Types_lemmas.v.
 
@@ -388,6 +390,72 @@ Definition cfg_set (cl : classes) (n : node) (k : nat) (v : value) : node * outc
   end.
 Definition cfg_get (n : node) (k : nat) : option value := get_field (n_fields n) k.
 
+(* ------------------------------------- declared defaults / TypeConfig.__init__ *)
+(* ObjectType.addArgument: `argument.type.validate(argument.default)` when a default is
+   declared - the result is thrown away (Argument.default keeps the value as written),
+   a default the type refuses makes the class unusable                               *)
+Definition default_accepted (cl : classes) (d : argdecl) (default : option value) : bool :=
+  match default with
+  | None => true
+  | Some dv => match validate cl (a_ty d) dv with Ok _ => true | Err => false end
+  end.
+
+Definition declare_default (cl : classes) (a : annot) (default : option value) : option argdecl :=
+  match declare a (match default with Some _ => true | None => false end) with
+  | Some d => if default_accepted cl d default then Some d else None
+  | None => None
+  end.
+
+(* TypeConfig.__init__, first loop: every argument that is not among the keywords
+   (`skip`) gets its declared default THROUGH set(..., bypass=True) - so the value held
+   is the validated (coerced) one, not the value as written - or None when it is not
+   required; a required argument without default gets no entry.  `defs` is the row of
+   declared defaults, by argument position; `i` is the position of the head of `ds`.  *)
+Fixpoint init_fields (cl : classes) (ds : list argdecl) (defs : list (option value)) (i : nat)
+                     (skip : list nat) : result (list (nat * value)) :=
+  match ds with
+  | [] => Ok []
+  | d :: r =>
+      match init_fields cl r (tl defs) (S i) skip with
+      | Err => Err
+      | Ok fs =>
+          if existsb (Nat.eqb i) skip then Ok fs
+          else
+            match hd None defs with
+            | Some dv =>
+                match assign cl d false true dv with
+                | Ok x => Ok ((i, x) :: fs)
+                | Err => Err
+                end
+            | None => if a_required d then Ok fs else Ok ((i, VNone) :: fs)
+            end
+      end
+  end.
+
+(* second loop: the keywords, through set() (no bypass), in order *)
+Fixpoint set_all (cl : classes) (n : node) (kw : list (nat * value)) : result node :=
+  match kw with
+  | [] => Ok n
+  | (k, v) :: r =>
+      match cfg_set cl n k v with
+      | (n', Stored) => set_all cl n' r
+      | _ => Err
+      end
+  end.
+
+(* C(k1=v1, ...) for class c whose declared defaults are defs *)
+Definition cfg_new (cl : classes) (defs : list (option value)) (c : nat) (kw : list (nat * value))
+  : result node :=
+  match init_fields cl (class_args cl c) defs 0 (map fst kw) with
+  | Err => Err
+  | Ok fs => set_all cl {| n_cls := c; n_fields := fs; n_pre := []; n_init := []; n_sealed := false |} kw
+  end.
+
+(* "every parameter of the configuration holds a value of its declared type" *)
+Definition fields_typed (cl : classes) (n : node) : Prop :=
+  forall i d v, nth_error (class_args cl (n_cls n)) i = Some d -> cfg_get n i = Some v ->
+                arg_has_type cl d v.
+
 (* -------------------------------------------- ConfigInformation.validate *)
 (* Configurations found in a value.  Repaired code (fixes/C15-1): directly, as
    list elements and as dict values, at any depth.  Pinned commit: directly only. *)
@@ -523,3 +591,83 @@ Definition cfg_edge (ob : value -> list nat) (cl : classes) (h : heap) (a b : na
 Inductive reach (ob : value -> list nat) (cl : classes) (h : heap) : nat -> nat -> Prop :=
 | reach_refl : forall a, reach ob cl h a a
 | reach_step : forall a b c, reach ob cl h a b -> cfg_edge ob cl h b c -> reach ob cl h a c.
+
+(* ------------------------------------------------ sessions: histories of operations *)
+(* What a script does with a set of configuration objects: assignments, submits and
+   validations in any order.  The job flag of an object (`__xpm__.job`) is set by its
+   own submit BEFORE validation and stays set when validation raises; it is what
+   ObjectType.validate looks at ("must be submitted before giving it") when a task is
+   given as a parameter value - and it plays no role in the validation walk: a task
+   that "has a job" is walked like any other configuration.                          *)
+Record session := {
+  s_heap : heap;
+  s_jobs : list nat;       (* objects whose __xpm__.job is set *)
+  s_reg : list nat         (* jobs registered in the scheduler, in order *)
+}.
+
+Inductive op :=
+| OSubmit (root : nat) (init : list nat)      (* root.submit(init_tasks=init) *)
+| OValidate (root : nat)                      (* root.__xpm__.validate() *)
+| OSet (m k : nat) (v : value).               (* m.<k-th argument> = v *)
+
+(* the value as ObjectType.validate sees it: the "has a job" flag is read off the
+   objects at the time of the assignment                                            *)
+Fixpoint stamp (jobs : list nat) (v : value) : value :=
+  match v with
+  | VObj o c _ => VObj o c (mem o jobs)
+  | VList l => VList (map (stamp jobs) l)
+  | VDict ps => VDict (map (fun p => let '(a, b) := p in (stamp jobs a, stamp jobs b)) ps)
+  | _ => v
+  end.
+
+Fixpoint upd_nth {A : Type} (l : list A) (i : nat) (x : A) : list A :=
+  match l, i with
+  | [], _ => []
+  | _ :: r, O => x :: r
+  | y :: r, S j => y :: upd_nth r j x
+  end.
+
+Definition set_init (n : node) (init : list nat) : node :=
+  {| n_cls := n_cls n; n_fields := n_fields n; n_pre := n_pre n; n_init := init; n_sealed := n_sealed n |}.
+
+(* one operation; the verdict is Rejected when the call raises *)
+Definition sess_step (cl : classes) (s : session) (o : op) : session * verdict :=
+  match o with
+  | OSubmit root init =>
+      match nth_error (s_heap s) root with
+      | None => (s, Rejected)
+      | Some n =>
+          if mem root (s_jobs s) || negb (class_task cl (n_cls n))
+          then (s, Rejected)                    (* "already submitted" / "is not a task" *)
+          else
+            let h' := upd_nth (s_heap s) root (set_init n init) in   (* self.init_tasks = init_tasks *)
+            let jobs' := root :: s_jobs s in                         (* self.job = ... *)
+            let '(reg', v) := submit cl h' (s_reg s) root in         (* validate, then register *)
+            ({| s_heap := h'; s_jobs := jobs'; s_reg := reg' |}, v)
+      end
+  | OValidate root =>
+      (s, match cfg_validate cl (s_heap s) root with
+          | Some (VOk _) => Accepted
+          | Some (VErr _) => Rejected
+          | None => OutOfFuel
+          end)
+  | OSet m k v =>
+      match nth_error (s_heap s) m with
+      | None => (s, Rejected)
+      | Some n =>
+          let '(n', r) := cfg_set cl n k (stamp (s_jobs s) v) in
+          match r with
+          | Stored => ({| s_heap := upd_nth (s_heap s) m n'; s_jobs := s_jobs s; s_reg := s_reg s |}, Accepted)
+          | _ => (s, Rejected)
+          end
+      end
+  end.
+
+Fixpoint sess_run (cl : classes) (s : session) (ops : list op) : session :=
+  match ops with
+  | [] => s
+  | o :: r => sess_run cl (fst (sess_step cl s o)) r
+  end.
+
+Definition heap_typed (cl : classes) (h : heap) : Prop :=
+  forall m n, nth_error h m = Some n -> fields_typed cl n.
